@@ -52,7 +52,7 @@ var exprPool = []string{
   }`, `(
     a +
     b
-  )`, "<<EOT\nheredoc ${x} line\n  second\nEOT", "<<-EOT\n    indented ${y.z}\n    EOT", "<<EOT\n${x} at line start\n%{ if c }yes%{ endif }\nEOT", "<<-EOT\n  ${a.b}\n  EOT", `x != null ? x : "default"`, `a.b.c.d.e`, `l[length(l) - 1]`, `"${a}${b}"`, `"$${literal}"`, `1 == 1.0`, `a[true]`, `a[null].b`, `[x[false], y]`, `"${m[true]}"`,
+  )`, "<<EOT\nheredoc ${x} line\n  second\nEOT", "<<-EOT\n    indented ${y.z}\n    EOT", "<<EOT\n${x} at line start\n%{ if c }yes%{ endif }\nEOT", "<<-EOT\n  ${a.b}\n  EOT", `x != null ? x : "default"`, `a.b.c.d.e`, `l[length(l) - 1]`, `"${a}${b}"`, `"$${literal}"`, `1 == 1.0`, `a /* mid */ - b`, `f(/* arg */ x, !y)`, `total-used - 1`, `a[true]`, `a[null].b`, `[x[false], y]`, `"${m[true]}"`,
 }
 
 func genName(r *rnd) string { return attrNames[r.n(len(attrNames))] }
@@ -377,10 +377,14 @@ func genRaw(r *rnd, d int) *RawB {
 	switch k := r.n(9); {
 	case k <= 2 || d <= 0:
 		src := exprPool[r.n(len(exprPool))]
-		for strings.Contains(src, "#") || strings.Contains(src, "/*") || (d < 2 && strings.HasPrefix(src, "<<")) {
-			src = exprPool[r.n(len(exprPool))] // no comments inside raw tokens; heredocs only at top level
+		for d < 2 && (strings.HasPrefix(src, "<<") || strings.Contains(src, "#")) {
+			src = exprPool[r.n(len(exprPool))] // heredocs and line comments only at top level (they need their line end)
 		}
-		return &RawB{Fn: "lex", Src: src}
+		rb := &RawB{Fn: "lex", Src: src}
+		if r.chance(1, 12) {
+			rb.KeepEOF = true // the scanner's end-of-file token left in, as LexExpression returns it
+		}
+		return rb
 	case k == 3:
 		rb := &RawB{Fn: "tuple"}
 		for i := r.n(3); i > 0; i-- {
